@@ -81,6 +81,11 @@ func (pp *buffer) AddComment(c string) {
 	// these hacks ensure that Go comments don't insert stray Coq comments
 	c = strings.ReplaceAll(c, "(*", "( *")
 	c = strings.ReplaceAll(c, "*)", "* )")
+	// Coq lexes strings inside comments: an unpaired double quote would
+	// swallow the end of the comment
+	if strings.Count(c, "\"")%2 == 1 {
+		c = strings.ReplaceAll(c, "\"", "'")
+	}
 	indent := pp.Block("(* ", "%s *)", c)
 	pp.Indent(-indent)
 }
